@@ -15,6 +15,9 @@ CLAIMED = {
  "C04": dict(cat="exploration", tech="runtime monitoring: reference-model monitor over the exhaustive selector x target x candidates product plus random programs",
    text="The full product of selectors, targets, 0-4 candidates, interleaved other-type blocks, candidates defined after the statement and 1-3 bind statements, plus random programs with binds anywhere; Binding, warnings with positions and error class/position compared with the reference model.",
    note="Trusted: DESIGN §5.4 bind rules.", ref="§6 C04"),
+ "C06": dict(cat="exploration", tech="runtime monitoring: crash/termination monitor in journalled worker processes + VM step hook (bounded logical progress) + goroutine-dump deadlock identification",
+   text="Fixed lists scale programs to just below, at and above every implementation limit (sized exactly in code bytes for the jump distance), feed every invalid/extreme literal form in 8 contexts and every out-of-domain operand; random bytes, token soups and damaged generated programs add breadth. Every input goes through Parse+Execute, Interpret, Unmarshal and a file variant; a panic (also in the file variants' goroutines, which kills the worker and is found through the journal), a deadlock (from goroutine dumps) or more executed instructions than the program has refutes the property.",
+   note="Inputs whose legitimate result would exhaust memory are skipped as the property states. A watchdog firing that is not confirmed when the case runs alone is inconclusive, not a violation.", ref="§6 C06"),
 }
 
 NOT_YET = {}
